@@ -284,6 +284,13 @@ theorem marker_never_replaces_an_entry (c : Cfg) (s : St) (pk j : Nat) (m : List
     ∀ e', (takeP c s pk j m dbf).1.cache k = some e' → e'.val ≠ .ph :=
   takeP_marker_never_replaces c s pk j m dbf k e he hrow hkeep
 
+/-- the same for the index path (`QueryRowIndex`): the marker never replaces an entry under the index key. -/
+theorem marker_never_replaces_an_index_entry (c : Cfg) (s : St) (a j : Nat) (m : List Bool) (dbf : Bool) (e : Entry)
+    (he : s.cache (c.slot (.x a)) = some e) (hrow : e.val ≠ .ph)
+    (hkeep : parses (.x a) e.val = true ∨ failAt m 1 = true) :
+    ∀ e', (qindex c s a j m dbf).1.cache (c.slot (.x a)) = some e' → e'.val ≠ .ph :=
+  qindex_marker_never_replaces c s a j m dbf e he hrow hkeep
+
 /-- non-vacuity of the NX case: junk under `p1` whose DEL fails, the row is absent: the Take returns not-found,
 issues GET, DEL (failed), SET NX — and the junk is still there; with the DEL succeeding the marker is written. -/
 example :
